@@ -125,13 +125,22 @@ def replace_iterrows_itertuples(source: str) -> str:
             for target_at_access, attr in core.walk_wildcard(child, target_at_access_template):
                 node_replacements[target_at_access] = ast.Attribute(value=new_target, attr=attr)
             for target_iat_access in core.walk(child, target_iat_access_template):
+                position = target_iat_access.slice
+                try:
+                    position_value = core.literal_value(position)
+                except ValueError:
+                    position_value = None
+                if type(position_value) is int and position_value < 0:
+                    # Negative positions count from the end, which the leading Index field
+                    # of the named tuple does not move.
+                    new_position = position
+                else:
+                    new_position = ast.BinOp(
+                        left=position, op=ast.Add(), right=ast.Constant(value=1, kind=None)
+                    )
                 node_replacements[target_iat_access] = ast.Subscript(
-                    value=new_target,
-                    slice=ast.BinOp(
-                        left=target_iat_access.slice,
-                        op=ast.Add(),
-                        right=ast.Constant(value=1, kind=None),
-                ),)
+                    value=new_target, slice=new_position
+                )
         # All mentions should have been replaced, otherwise something is wrong.
 
         # I'm aware that attribute accesses don't necessarily need to be replaced, but
